@@ -51,6 +51,13 @@ Definition alist_cid (s : store) (e : Z) (cid : bytes) : list bytes :=
 Definition alist_node (s : store) (e : Z) (cid hk : bytes) : list bytes :=
   map fst (sfind (aid e cid hk) s).
 
+(** The calls: a key / scan prefix longer than 64 bytes faults (StoreLib). *)
+Definition aget_call (s : store) (id : bytes) : outcome (option bytes) := with_key id (aget s id).
+Definition alist_cid_call (s : store) (e : Z) (cid : bytes) : outcome (list bytes) :=
+  with_key (int_to_bytes e ++ cid) (alist_cid s e cid).
+Definition alist_node_call (s : store) (e : Z) (cid hk : bytes) : outcome (list bytes) :=
+  with_key (aid e cid hk) (alist_node s e cid hk).
+
 Definition aexec (s : store) (o : aop) : outcome store :=
   match o with APut ir wit raw hk => aput s ir wit raw hk end.
 
@@ -79,15 +86,18 @@ Definition alog (ops : list aop) := alog_from ∅ ops.
 Definition opt_val (o : option bytes) : val :=
   match o with Some b => VBytes b | None => VNull end.
 
+Definition out_list (o : outcome (list bytes)) : val :=
+  match o with Halt l => VBytesList l | Fault => VFault end.
 Definition aobserve (q : list Z * list bytes * list bytes * bytes) (s : store) (r : val) : val :=
   let '(es, cs, hs, x) := q in
   VList [ r;
           VBytesList (alist s);
           VList (map (fun e => VBytesList (alist_epoch s e)) es);
-          VList (map (fun e => VList (map (fun c => VBytesList (alist_cid s e c)) cs)) es);
+          VList (map (fun e => VList (map (fun c => out_list (alist_cid_call s e c)) cs)) es);
           VList (map (fun e => VList (map (fun c =>
-                   VList (map (fun h => VBytesList (alist_node s e c h)) hs)) cs)) es);
-          VList (map (fun id => opt_val (aget s id)) (alist s ++ [x])) ].
+                   VList (map (fun h => out_list (alist_node_call s e c h)) hs)) cs)) es);
+          VList (map (fun id => match aget_call s id with Halt o => opt_val o | Fault => VFault end)
+                     (alist s ++ [x])) ].
 
 Definition astep_obs q (s : store) (o : aop) : store * val :=
   let '(s', r) := astep s o in (s', aobserve q s' r).
